@@ -72,6 +72,9 @@ type mModel struct {
 	scalarTouched map[string]bool // "module", "go", "toolchain"
 	scalarID      map[string]int
 	entries       []mEntry // all kinds, in list order per kind
+	// skipDedup: this reading does not de-duplicate as a side effect of the operation being applied
+	// (the property allows the documented de-duplication, it does not say which operations perform it)
+	skipDedup bool
 }
 
 func (m *mModel) clone() *mModel {
@@ -147,6 +150,9 @@ func (m *mModel) setFirst(kind string, preserve bool, match func(e *mEntry) bool
 }
 
 func (m *mModel) removeDups() {
+	if m.skipDedup {
+		return
+	}
 	// earlier exclude and tool directives win; later replace directives win
 	seen := map[string]bool{}
 	var out []mEntry
